@@ -24,54 +24,67 @@ Theorem ws_prefix_incomplete : forall f m p q, wf_frame f ->
 Proof. exact parse_strict_prefix. Qed.
 Print Assumptions ws_prefix_incomplete.
 
-(* 4. Segmentation independence, server and client: for any stream of well-formed
-      frames (on the server: Close, if present, last) cut arbitrarily into reads, the
-      endpoint produces exactly the events of handling the frames one by one. *)
+(* 4. Segmentation independence, server and client: for any stream of well-formed frames that the endpoint accepts
+      under its size limit (control frames always, other frames with a payload up to maxsz; on the server: Close, if
+      present, last) cut arbitrarily into reads, the endpoint produces exactly the events of handling the frames one
+      by one. *)
 Theorem ws_segmentation_independent : forall r maxsz chunks fms,
-  wf_fms fms -> (r = Server -> close_last fms) ->
+  wf_fms fms -> fit_fms maxsz fms -> (r = Server -> close_last fms) ->
   concat chunks = stream fms ->
   snd (feed_all r maxsz conn_init chunks) = snd (handle_frames r maxsz w_init (norms fms)).
 Proof.
-  intros r maxsz chunks fms Hwf Hcl E.
-  apply segmentation_independent; auto. intros _ H. discriminate H.
+  intros r maxsz chunks fms Hwf Hfit Hcl E.
+  apply segmentation_independent; auto; [intros H; discriminate H|now left].
 Qed.
 Print Assumptions ws_segmentation_independent.
 
-(* 5. Reassembly: a message fragmented in any way, with pings and pongs between the
-      fragments, is delivered once with the fragments joined in order; pings are
-      answered with equal payload; invalid UTF-8 text is refused with a close. *)
-Theorem ws_reassembly : forall r maxsz op p0 mids plast cs cn,
+(* 5. Reassembly: a message within the limit, fragmented in any way, with pings and pongs between the fragments, is
+      delivered once with the fragments joined in order; pings are answered with equal payload; invalid UTF-8 text is
+      refused with a close. *)
+Theorem ws_reassembly : forall r maxsz op p0 mids plast cs cn cx,
   (op = 1 \/ op = 2) ->
   let total := p0 ++ concat (map mid_payload mids) ++ plast in
   size_ok r maxsz total ->
-  handle_frames r maxsz (mkW true [] 0 cs cn) (fragmented op p0 mids plast) =
+  handle_frames r maxsz (mkW true [] 0 cs cn cx) (fragmented op p0 mids plast) =
   (mkW true [] 0 (match r, op =? 1, utf8_valid total with
-                  | Server, true, false => true | _, _, _ => cs end) cn,
+                  | Server, true, false => true | _, _, _ => cs end) cn cx,
    concat (map mid_events mids) ++ deliver r op total).
 Proof. exact reassembly. Qed.
 Print Assumptions ws_reassembly.
 
-(* 6. Server: after a close frame has been handed to the transport no data frame
-      follows, for every history of reads and application sends. *)
-Theorem ws_server_no_data_after_close : forall maxsz ops,
-  ndac false (snd (wrun Server maxsz conn_init ops)) = true.
-Proof. intros. apply server_no_data_after_close. discriminate. Qed.
-Print Assumptions ws_server_no_data_after_close.
+(* 6. Server AND client (since the repair of C18-F1c1): after a close frame has been handed to the transport no data
+      frame follows, for every history of reads and application sends. *)
+Theorem ws_no_data_after_close : forall r maxsz ops,
+  ndac false (snd (wrun r maxsz conn_init ops)) = true.
+Proof. intros. apply no_data_after_close. discriminate. Qed.
+Print Assumptions ws_no_data_after_close.
 
-(* 6'. The same statement is FALSE of the client model (known finding C18-F1c). *)
-Theorem ws_client_no_data_after_close_refuted : exists ops,
-  ndac false (snd (wrun Client 100 conn_init ops)) = false.
-Proof. eexists. exact client_data_after_close_witness. Qed.
-Print Assumptions ws_client_no_data_after_close_refuted.
-
-(* 7. "never buffers without bound" is FALSE of the server model (known finding
-      C18-F1b): witness in Proofs.v. *)
-Theorem ws_server_buffer_bound_refuted : exists chunks,
-  16 + 14 < lenN (fst (fst (feed_all Server 16 conn_init chunks))).
+(* 7. Bounded buffering, server and client (since the repair of C18-F1b1/F1b2/F1b3/F1c2): after ANY history of reads
+      (arbitrary bytes, arbitrarily cut) and application sends, the bytes waiting for the rest of a frame are fewer
+      than one maximal header plus one acceptable payload, and the fragments collected for a message do not exceed
+      the limit. *)
+Theorem ws_buffers_bounded : forall r maxsz ops,
+  let c := fst (wrun r maxsz conn_init ops) in
+  lenN (fst c) < 14 + N.max maxsz 125 /\ lenN (w_frag (snd c)) <= maxsz.
 Proof.
-  exists [big_header; repeat 7 200]. vm_compute. reflexivity.
+  intros r maxsz ops. apply (buffers_bounded r maxsz ops conn_init).
+  split; [cbn [fst conn_init]|unfold frag_ok; cbn [snd conn_init w_init w_frag]];
+    change (lenN (@nil N)) with 0; lia.
 Qed.
-Print Assumptions ws_server_buffer_bound_refuted.
+Print Assumptions ws_buffers_bounded.
+
+(* 7'. The two headers that made the endpoints as found buffer for ever - a data frame declaring 2^62 bytes, a ping
+      declaring 126+ bytes - fail the connection at once, in both roles: one Close frame (1009 / 1002), an error and a
+      close report, nothing kept, nothing read afterwards. *)
+Theorem ws_hostile_headers_fail_at_once :
+  feed_all Server 16 conn_init [big_header; repeat 7 200] =
+    (([], mkW false [] 0 true true false),
+     [EvSend (make_close 1009 reason_too_big); EvError; EvClosed 1009 reason_too_big; EvCloseSession]) /\
+  feed_all Client 16 conn_init [bad_ping_header; repeat 7 200] =
+    (([], mkW false [] 0 false false true),
+     [EvSend (make_close 1002 reason_proto); EvError; EvClosed 1002 reason_proto]).
+Proof. split; vm_compute; reflexivity. Qed.
+Print Assumptions ws_hostile_headers_fail_at_once.
 
 (* ------------------------------------------------ non-vacuity examples *)
 Example wf_frame_boundaries :
